@@ -16,7 +16,7 @@
      NC                                          length of dict_nonsimple_entries
      B w                                         simple_wordb / alnum_wordb under the R tables: e.g. "01"
      S item ; item ; ..                          C06Sentence.run_sentence (last item `p 46`: C06SentenceDot.run_sentence_dot on the
-                                                 items before it) under the R tables; item = "w cps" | "s n" | "p cp";
+                                                 items before it; with apostrophe items among them: C06SentenceContrDot.run_sentence_contr_dot) under the R tables; item = "w cps" | "s n" | "p cp";
                                                  prints "N" (not a sentence of the class) | "text cps | all token spans | word spans" *)
 (* N -> 16 hex digits (dict_digest does not fit OCaml's 63-bit int) *)
 let hex_of_n (x : n) : string =
@@ -167,7 +167,10 @@ let () =
           | [] -> [] in
         let run =
           match List.rev its with
-          | SPunct c :: front when int_of_n c = 46 -> run_sentence_dot (uni_now ()) (List.rev front)
+          | SPunct c :: front when int_of_n c = 46 ->
+              (* phase 7: contractions in front of the final period: C06SentenceContrDot.run_sentence_contr_dot on the grouped front *)
+              let front = List.rev front in
+              if List.exists is_apos front then run_sentence_contr_dot (uni_now ()) (group front) else run_sentence_dot (uni_now ()) front
           | _ -> if List.exists is_apos its then run_sentence_contr (uni_now ()) (group its) else run_sentence (uni_now ()) its in
         (match run with
          | None -> print_endline "N"
